@@ -89,6 +89,17 @@ CLAIMED = {
         note="Bounded sizes; the per-axis operators are those of C01/C10.",
         technique="TLA+ wiring model of filter-to-axis assignment (TLC) + exact Kronecker operator replay",
         design="9/C14"),
+    "C18": dict(
+        text="At check time every float64 tap of every shipped table and of the reference dtcwt package is converted to an "
+             "exact integer (tap * 2^70, base-2^11 limbs) and written as a TLA+ module; TLC evaluates in exact integer "
+             "arithmetic: equality with the reference table, tree b = reverse(tree a), g = reverse(h) (band-pass variants "
+             "too), exact symmetry (legall, near_sym_a/b) or within 2^-40 (antonini, h2o/g2o), level-1 biorthogonal PR and "
+             "q-shift orthonormality / cross-orthogonality within 2^-24, polarity signs, and a loader state machine. The "
+             "finite set of 12 names is enumerated completely. The real loaders are called twice per name and fingerprinted "
+             "against the arrays TLC was given; hook events give the cache hit/miss discipline.",
+        note="Reference = the installed dtcwt 0.14 package; float->integer conversion via fractions.Fraction is exact.",
+        technique="TLA+ exact-integer (limb arithmetic) evaluation of table identities by TLC, exhaustive over the finite name set",
+        design="9/C18"),
     "C19": dict(
         text="TLC checks that the per-axis pipeline transcribed from afb2d_nonsep/sfb2d_nonsep equals the separable stage "
              "model for every (mode, N, L), that the joint pre-padding test equals independent per-axis padding, same raise "
